@@ -159,3 +159,30 @@ prop("C12", "exploration", HIST_RULE + "; C12 monitors: M-nonce records the publ
       "the recipient's never-persisted context cannot be compared; XOR-masked stored values are not plaintext",
       "interruptions are process death / failing calls, not power loss"],
      required_hist=["nonces-recorded", "secrets:contexts-searched", "secrets:haystacks-searched", "wrong-password-refused", "independent-decrypt-agrees", "interrupted:change_password:recoverable", "interrupted:recover:recoverable"])
+
+prop("C17", "exploration",
+     "sweep over protocol step (receive_tx, finalize_tx, process_invoice_tx, foreign finalize of an invoice) x cutoff - observed height in -3..+3 plus "
+     "cutoffs 0, 1, u64::MAX, the acting wallet having refreshed its active account at the tip first; and refresh cases: the wallet's own pending "
+     "transaction (sender / recipient role) with a 2-4 block ttl, 0-3 other pending transactions without or with a later ttl created before or after it, "
+     "chain mined to cutoff-1 / cutoff / cutoff+1, then one refresh. Oracle: accepted => not expired; refused-for-expiry => expired and state unchanged; "
+     "validated refresh at tip >= cutoff => entry cancelled and nothing reserved; other transactions untouched. distinct = (step, delta/special, "
+     "expired) and (role, others, order, delta); non-trivial = all",
+     [{"name": "c17", "cmd": "c17", "shards": {"quick": 14, "thorough": 16}, "crash_is_violation": True}],
+     {"quick": 80, "thorough": 500},
+     ["'observed height' is the active account's last confirmed height after a successful refresh at the tip",
+      "a refresh that returns an error or validated=false is not judged"],
+     required_hist=["refused-expired:Receive", "refused-expired:Finalize", "refused-expired:PayInvoice", "refused-expired:FinalizeInvoice", "accepted-in-time:Receive", "refresh-released-expired", "refresh-kept-unexpired", "refresh-kept-other-pending"])
+
+prop("C05", "exploration",
+     "pending transaction kinds (sent: locked / received by peer / finalized; received; received then finalized by peer; invoice payee: issued / processed; "
+     "invoice payer locked; late-locked after finalize; self-send) x 0-3 other pending transactions created first x cancel by log id or slate id x 1-3 change "
+     "outputs, plus minimum_confirmations=0 spends of a still-unconfirmed output. The view P0 (per output: path, status, value, height, lock height; every "
+     "log entry; balance figures for minconf 0/1/3/10) is taken after a refresh right before the transaction is created; after the cancel the view must equal "
+     "P0 except for the cancelled entry itself. Then cancels of already cancelled / unknown / coinbase / confirmed entries must be refused without change. "
+     "distinct = (kind, other pending, addressing, change, minconf0); non-trivial = all",
+     [{"name": "c05", "cmd": "c05", "shards": {"quick": 14, "thorough": 16}, "crash_is_violation": True}],
+     {"quick": 250, "thorough": 1500},
+     ["no block is mined and no coin-selecting step runs between creation and cancel (their choices legitimately depend on the reservation)",
+      "the output's link to a log entry (tx_log_entry) is not part of the compared state; status, value, heights and balances are",
+      "a self-send is cancelled by log id (two entries share the slate id)"],
+     required_hist=["exact-rollback:SentFinalized", "exact-rollback:Received", "exact-rollback:InvoicePayerLocked", "exact-rollback:LateLockedFinalized", "exact-rollback:SelfSend", "refused:confirmed", "refused:coinbase", "refused:already-cancelled"])
